@@ -28,6 +28,10 @@ Graphs ==
     [] Family = "C5"  -> {MkG(1..5, {<<1, 3>>, <<2, 3>>, <<3, 4>>, <<4, 5>>} \cup d2, b) :
                              d2 \in SUBSET {<<1, 2>>, <<1, 5>>, <<2, 4>>},
                              b \in SUBSET {{3, 4}, {3, 5}, {1, 2}}}
+    \* fixed 5-node family around the collider 1 -> 3 <- 2 whose middle node has two children
+    [] Family = "D5"  -> {MkG(1..5, {<<1, 3>>, <<2, 3>>, <<3, 4>>, <<3, 5>>} \cup d2, b) :
+                             d2 \in SUBSET {<<4, 5>>, <<1, 4>>, <<2, 5>>},
+                             b \in SUBSET {{1, 3}, {4, 5}, {1, 2}}}
     [] Family = "RND" -> RandomADMGs
 
 Init == /\ g \in Graphs /\ phase = "chosen" /\ sep = {} /\ sig = {} /\ dev = {}
